@@ -104,7 +104,17 @@ def run(rep):
         reqs.append(('body', m))
     d = vlib.Differential(rep, [h], env=env, spec_ops=SPEC_OPS, name='h_message')
     impl, model, spec = d.run(reqs)
+    # 8-bit bytes inside base64 / quoted-printable / identity bodies and parts (tools/c11bytes.py): every value 0x80-0xff at every place
+    # of the encoding; undecodable base64 is an error by the specification, elsewhere the byte is data; implementation != specification
+    # is a failing input
+    import c11bytes
+    breqs, bmeta = c11bytes.requests(rep.tier)
+    d8 = vlib.Differential(rep, [h], env=env, spec_ops=SPEC_OPS, name='h_message (8-bit family, tools/c11bytes.py)')
+    bimpl, bmodel, bspec = d8.run(breqs, max_report=3)
+    bytes_unit_cov = c11bytes.check_family(rep, breqs, bmeta, bimpl, bspec)
+    bytes_unit_cov.update({'correspondence_mismatches': len(d8.corr_mismatch), 'spec_failures': len(d8.spec_fail), 'sanitizer_faults': len(d8.faults)})
     d.conclude('message.c (parseattachments, message_get_body) <-> Model/Mime.lean')
+    d8.conclude('message.c (message_get_body, message_get_attachments), decode.c <-> Model/Mime.lean, Model/Decode.lean over 8-bit bytes in encoded content')
     # attachment conditions and attachment blocks through the real evaluator: "some part" / "every part", errors never match
     import base64 as b64m
     import evalcommon as ec
@@ -160,6 +170,8 @@ def run(rep):
     import proc
     import execbody
     ptools = proc.Tools(sc)
+    # the same 8-bit family on the real binary: one undecodable message among healthy ones under the rule shapes of the property
+    bytes_proc_cov = c11bytes.stage(rep, ptools)
     fault_cov = execbody.stage(rep, ptools, whole_part=False)
     # ... and the decoded body of the CURRENT message when rewriting / renaming / copying actions stand before, between and after the commands
     # of an action list: tools/execseq.py (shared with C13)
@@ -177,7 +189,7 @@ def run(rep):
             nparts[k] = nparts.get(k, 0) + 1
     nontriv = set(r for r, i in zip(reqs, impl) if (r[0] == 'parts' and i.startswith('P') and i != 'P0') or (r[0] == 'body' and i.startswith('B') and vlib.hexs(r[1]).find(i[1:]) < 0))
     rep.coverage.update({
-        'evaluations': d.evals,
+        'evaluations': d.evals + d8.evals,
         'distinct_nontrivial': len(nontriv),
         'rule': '%d generated messages (85%% MIME trees: quoted boundary, 0-60 parts per level, depth 0-6, preamble/epilogue, boundary '
                 'look-alikes, every encoding, missing/invalid terminator or boundary parameter; 12%% of the trees with a boundary out of an '
@@ -192,6 +204,8 @@ def run(rep):
         'spec_failures': len(d.spec_fail),
         'sanitizer_faults': len(d.faults),
         'content_type_spellings_judged_by_rfc2045': spell_cov,
+        'eightbit_bytes_in_encoded_content_unit': bytes_unit_cov,
+        'eightbit_bytes_in_encoded_content_real_binary': bytes_proc_cov,
         'exec_stdin_body_under_write_faults': fault_cov,
         'exec_stdin_body_across_action_sequences': seq_cov,
     })
@@ -201,6 +215,14 @@ def run(rep):
 def replay(rep, path):
     import json
     j = json.load(open(path))
+    if j.get('stage') == 'c11bytes':
+        import proc
+        import c11bytes
+        sc = vlib.Scratch()
+        vlib.lean_gate(rep, 'C11', sc, [])
+        c11bytes.replay(proc.Tools(sc), j)
+        rep.coverage.update({'evaluations': 1, 'distinct_nontrivial': 1})
+        return
     if j.get('stage') in ('execbody', 'execseq'):
         import proc
         import execbody
